@@ -245,6 +245,7 @@ func (h *harness) one(cs *Case, ch chooser, dense bool, vcase func(tmpl, want st
 	}
 	tmpl := p.sb.String()
 	h.cnt["raw_close_braces"] += int64(p.rawClose)
+	h.countCtrl(p)
 	if p.escaped > 0 || p.calls > 0 {
 		h.c.Nontrivial(tmpl)
 	}
@@ -261,6 +262,163 @@ func (h *harness) one(cs *Case, ch chooser, dense bool, vcase func(tmpl, want st
 	h.cnt["malformed_templates"]++
 	h.cnt["mutation_"+cs.Mut]++
 	return h.judgeErrors(tmpl, need, func() *Case { return vcase(tmpl, "errors "+strings.Join(need, "+")) })
+}
+
+func (h *harness) countCtrl(p *printer) {
+	if p.ctrlEsc == 0 {
+		return
+	}
+	h.cnt["ctrl_escapes_in_quoted_args"] += int64(p.ctrlEsc)
+	for d, n := range p.ctrlEscDepth {
+		if n > 0 {
+			h.cnt[fmt.Sprintf("ctrl_escapes_at_depth_%d", d)] += int64(n)
+		}
+	}
+}
+
+// eval compiles and evaluates one template with builder i (0 optimised, 1 not).
+func (h *harness) eval(i int, tmpl string) (got string, cerr *expressions.CompilerErrors, panicked bool, val any, stack string) {
+	panicked, val, stack = run.Guard(func() {
+		ckb, e := h.kbs[i].Compile(tmpl)
+		cerr = e
+		if ckb != nil {
+			got = ckb.BuildKey(&h.ctx)
+		}
+	})
+	return
+}
+
+// runDepth: depth invariance of the control-character escapes inside quoted
+// literal arguments. Items[0] is a probe call whose quoted literals contain
+// newline / tab / carriage return. It is printed ONCE (text T, controls written
+// raw or as \n \t \r), then the very same text is evaluated at the top level
+// (depth 1) and as an argument of 1..3 enclosing probe calls (depth 2..4).
+// Asserted for every depth d and both builders:
+//
+//	value(d) = reference value of the tree                         (depth-value)
+//	value(d) = wrapper serialisation applied to the OBSERVED value(1) (depth-variance)
+func (h *harness) runDepth(cs *Case) {
+	if len(cs.Items) != 1 || cs.Items[0].K != "call" {
+		h.c.Inconclusive("depth case without a single base call")
+		return
+	}
+	base := cs.Items[0]
+	for k := 0; k < cs.K; k++ {
+		if cs.Only != nil && *cs.Only != k {
+			continue
+		}
+		kk := k
+		ch := layoutChooser(cs.LSeed, k)
+		p := &printer{ch: ch}
+		p.stmt(base, 1, false)
+		if p.bad != "" {
+			h.c.Inconclusive("generator produced an inadmissible tree (" + p.bad + ")")
+			return
+		}
+		T := p.sb.String()
+		ref := refEval(base, probeLookups)
+		pre, post := []string{"", "x", "a\\nb ", "\"{0}\" "}[ch.pick(4)], []string{"", "y", " \\t", "\\}"}[ch.pick(4)]
+		// wrappers: {w [left] <inner> [right]}
+		type wrap struct{ name, open, left, right, close string }
+		var ws []wrap
+		for d := 2; d <= 4; d++ {
+			w := wrap{name: fnames[ch.pick(len(fnames))]}
+			w.open = "{" + leads[ch.pick(len(leads))] + w.name + seps[ch.pick(len(seps))]
+			switch ch.pick(3) {
+			case 1:
+				w.left = "L" + itoa(d)
+				w.open += w.left + seps[ch.pick(len(seps))]
+			case 2:
+				w.right = "R" + itoa(d)
+			}
+			if w.right != "" {
+				w.close = seps[ch.pick(len(seps))] + w.right
+			}
+			w.close += trails[ch.pick(len(trails))] + "}"
+			ws = append(ws, w)
+		}
+		vals := func(w wrap, inner string) []string {
+			var vs []string
+			if w.left != "" {
+				vs = append(vs, w.left)
+			}
+			vs = append(vs, inner)
+			if w.right != "" {
+				vs = append(vs, w.right)
+			}
+			return vs
+		}
+		for i := range h.kbs {
+			mode := []string{"optimised", "unoptimised"}[i]
+			inner, refV, obs1 := T, ref, ""
+			metaV := ""
+			for d := 1; d <= 4; d++ {
+				if d > 1 {
+					w := ws[d-2]
+					inner = w.open + inner + w.close
+					refV = probeString(w.name, vals(w, refV))
+					metaV = probeString(w.name, vals(w, metaV))
+				}
+				tmpl := pre + inner + post
+				want := evalPrePost(pre) + refV + evalPrePost(post)
+				got, cerr, panicked, val, stack := h.eval(i, tmpl)
+				vc := func() *Case {
+					v := *cs
+					v.Only = &kk
+					v.Template, v.Expected = tmpl, want
+					return &v
+				}
+				if i == 0 {
+					h.cnt["templates"]++
+					h.cnt["depth_templates"]++
+					h.cnt[fmt.Sprintf("depth_templates_d%d", d)]++
+					if p.ctrlEsc > 0 {
+						h.c.Nontrivial(tmpl)
+					}
+				}
+				h.cnt["value_comparisons"]++
+				switch {
+				case panicked:
+					h.c.Violation("panic:"+run.Hash64(tmpl), fmt.Sprintf("template %s (%s): panic %v; expected %s\n%s", run.Q(tmpl), mode, val, run.Q(want), stack), vc())
+				case cerr != nil:
+					h.c.Violation("depth-compile-error:"+run.Hash64(tmpl), fmt.Sprintf("well-formed template %s (%s, call at depth %d): Compile reported %q; expected no error and value %s", run.Q(tmpl), mode, d, cerr.Error(), run.Q(want)), vc())
+				case got != want:
+					h.c.Violation("depth-value:"+run.Hash64(tmpl), fmt.Sprintf("template %s (%s, call at depth %d): BuildKey = %s, expected %s", run.Q(tmpl), mode, d, run.Q(got), run.Q(want)), vc())
+				}
+				if panicked || cerr != nil {
+					break
+				}
+				if d == 1 {
+					// what the engine made of the call standing alone
+					obs1 = strings.TrimSuffix(strings.TrimPrefix(got, evalPrePost(pre)), evalPrePost(post))
+					metaV = obs1
+					continue
+				}
+				if meta := evalPrePost(pre) + metaV + evalPrePost(post); got != meta {
+					h.c.Violation("depth-variance:"+run.Hash64(tmpl), fmt.Sprintf("template %s (%s): the call %s evaluates to %s at the top level but nested at depth %d the whole is %s, expected %s (same text, same value at every depth)",
+						run.Q(tmpl), mode, run.Q(T), run.Q(obs1), d, run.Q(got), run.Q(meta)), vc())
+				}
+				h.cnt["depth_invariance_comparisons"]++
+			}
+		}
+		h.countCtrl(p)
+		h.cnt["calls_printed"] += int64(p.calls)
+	}
+}
+
+// evalPrePost: value of the fixed text pieces used around depth cases.
+func evalPrePost(s string) string {
+	switch s {
+	case "a\\nb ":
+		return "a\nb "
+	case "\"{0}\" ":
+		return "\"" + mval(0) + "\" "
+	case " \\t":
+		return " \t"
+	case "\\}":
+		return "}"
+	}
+	return s
 }
 
 // runLayouts runs a PRNG-layout case (rt | tree | mut).
@@ -361,6 +519,8 @@ func (h *harness) runCase(cs *Case) {
 		h.runDense(cs)
 	case "rt", "tree", "mut":
 		h.runLayouts(cs)
+	case "depth":
+		h.runDepth(cs)
 	case "cli-rt", "cli-tree", "cli-mut":
 		h.runCLI(cs)
 	default:
@@ -385,6 +545,7 @@ func Run(c *run.Ctx) {
 	}
 	h.pins()
 	h.dense()
+	h.depths()
 	h.roundTrips()
 	h.trees()
 	h.cli()
@@ -494,6 +655,32 @@ func (h *harness) trees() {
 				p.items(mitems)
 				c.Sample(map[string]any{"kind": "mut", "mutation": kind, "template": run.Q(p.sb.String()), "required": requiredErrors(mitems)})
 			}
+		}
+		if c.Violations() >= 6 {
+			return
+		}
+	}
+}
+
+// depths: control-character escapes in quoted literal arguments, depth 1..4.
+func (h *harness) depths() {
+	c := h.c
+	N := c.N(1500, 12000)
+	for i := 0; i < N; i++ {
+		if !c.Mine(i) {
+			continue
+		}
+		r := c.Rand("depth", i)
+		cs := &Case{Kind: "depth", Items: []*Node{genCtrlCall(r)}, LSeed: r.U64(), K: 4}
+		c.Begin(cs, 0)
+		h.runDepth(cs)
+		c.Evals(cs.K*4 - 1)
+		c.End()
+		h.cnt["depth_bases"]++
+		if i == 2 {
+			p := &printer{ch: constChooser(1)}
+			p.stmt(cs.Items[0], 1, false)
+			c.Sample(map[string]any{"kind": "depth", "base_call_escaped": run.Q(p.sb.String()), "value": run.Q(refEval(cs.Items[0], probeLookups)), "nested_at_depths": "1..4"})
 		}
 		if c.Violations() >= 6 {
 			return
